@@ -9,7 +9,9 @@ package props
 // and compared with the model, and every assignment of a new signing is compared with the model's heads.
 
 import (
+	"encoding/json"
 	"fmt"
+	"strings"
 	"testing"
 	"time"
 
@@ -28,7 +30,7 @@ import (
 )
 
 type c05gOp struct {
-	K  string `json:"k"` // submit | sign | reimport | end
+	K  string `json:"k"` // submit | sign | reimport | badimport | end
 	M  int    `json:"m,omitempty"`
 	N  int    `json:"n,omitempty"`
 	Dt int    `json:"dt,omitempty"`
@@ -49,7 +51,7 @@ func genC05Genesis(rt *rapid.T) c05gCase {
 	c.InitDE = gen.Range(rt, "initde", 0, int(min(c.MaxDE, 14)))
 	nops := gen.Range(rt, "nops", 6, 30)
 	for i := 0; i < nops; i++ {
-		switch gen.Pick(rt, "op", 35, 35, 20, 10) {
+		switch gen.Pick(rt, "op", 32, 32, 18, 8, 10) {
 		case 0:
 			n := gen.Range(rt, "cnt", 1, int(c.MaxDE))
 			if gen.Chance(rt, "fill", 1, 3) {
@@ -60,6 +62,9 @@ func genC05Genesis(rt *rapid.T) c05gCase {
 			c.Ops = append(c.Ops, c05gOp{K: "sign"})
 		case 2:
 			c.Ops = append(c.Ops, c05gOp{K: "reimport", Dt: gen.OneOf(rt, "dt", 1, 1, 5, 60)})
+		case 3:
+			// N: how far below the longest exported queue the configured maximum of the edited document is (0 = exactly at it)
+			c.Ops = append(c.Ops, c05gOp{K: "badimport", N: gen.OneOf(rt, "below", 0, 1, 1, 2)})
 		default:
 			c.Ops = append(c.Ops, c05gOp{K: "end", Dt: gen.OneOf(rt, "dt", 1, 1, 5)})
 		}
@@ -235,6 +240,48 @@ func runC05Genesis(c c05gCase) *pbt.Verdict {
 			if len(assigned) > 0 {
 				cls["export-after-assignments"] = true
 			}
+		case "badimport":
+			// the exported document with the configured maximum queue length edited (a migration that tightens max_de_size):
+			// a document in which some member has more queued pairs than the configured maximum must be refused, one in which
+			// the longest queue is exactly at the maximum must be accepted. The chain itself is not touched.
+			maxq := 0
+			for _, q := range queue {
+				maxq = max(maxq, len(q))
+			}
+			newMax := maxq - op.N
+			if newMax < 1 {
+				break
+			}
+			ierr := ch.TryImportMutated(func(state map[string]json.RawMessage) error {
+				var g, pr map[string]json.RawMessage
+				if err := json.Unmarshal(state["tss"], &g); err != nil {
+					return err
+				}
+				if err := json.Unmarshal(g["params"], &pr); err != nil {
+					return err
+				}
+				if _, ok := pr["max_de_size"]; !ok {
+					return fmt.Errorf("no max_de_size in the exported tss params")
+				}
+				pr["max_de_size"] = json.RawMessage(fmt.Sprintf("%q", fmt.Sprint(newMax)))
+				g["params"], _ = json.Marshal(pr)
+				state["tss"], _ = json.Marshal(g)
+				return nil
+			})
+			switch {
+			case ierr != nil && strings.HasPrefix(ierr.Error(), "harness:"):
+				v.Failf("C05/harness", "%s: %v", where, ierr)
+				return v
+			case op.N > 0 && ierr == nil:
+				v.Failf("C05/genesis-queue-above-maximum-accepted", "%s: a genesis with max_de_size %d and a member with %d queued pairs was imported", where, newMax, maxq)
+				return v
+			case op.N == 0 && ierr != nil:
+				v.Failf("C05/genesis-queue-at-maximum-refused", "%s: a genesis with max_de_size %d and a longest queue of %d was refused: %v", where, newMax, maxq, ierr)
+				return v
+			}
+			if op.N > 0 {
+				cls["import-with-queue-above-maximum-refused"] = true
+			}
 		default:
 			if _, err := ch.Block(nil, time.Duration(max(op.Dt, 1))*time.Second); err != nil {
 				v.Failf("C05/finalize", "%s: %v", where, err)
@@ -251,7 +298,7 @@ func runC05Genesis(c c05gCase) *pbt.Verdict {
 	if signsAfterImport > 0 {
 		cls["signing-after-import"] = true
 	}
-	for _, k := range []string{"export-with-more-than-12-queued-pairs", "export-with-more-than-12-pairs-of-one-member", "export-after-assignments", "signing-after-import"} {
+	for _, k := range []string{"import-with-queue-above-maximum-refused", "export-with-more-than-12-queued-pairs", "export-with-more-than-12-pairs-of-one-member", "export-after-assignments", "signing-after-import"} {
 		if cls[k] {
 			v.Class(k)
 		}
